@@ -163,3 +163,14 @@ def show(f):
     if f[0] == "not":
         return "!" + show(f[1])
     return "(%s %s %s)" % (show(f[1]), "&&" if f[0] == "and" else "||", show(f[2]))
+
+
+def map_atoms(f, fn):
+    """Formula with every atom string passed through fn (used to make a rule independent of local variable names)."""
+    if f[0] == "atom":
+        return ("atom", fn(f[1]))
+    if f[0] == "const":
+        return f
+    if f[0] == "not":
+        return ("not", map_atoms(f[1], fn))
+    return (f[0], map_atoms(f[1], fn), map_atoms(f[2], fn))
